@@ -197,6 +197,9 @@ def plan(tier, seed):
     else:
         bases = [[p] for p in small + s4] + [[a, b] for a, b in itertools.combinations(small[3:] + s4[::3], 2)][::4]
         nrand = 40
+    # degenerate and unordered bases: the empty permutation (contained in everything), repeated elements, lengths not grouped
+    bases += [[[]], [[], [0, 1, 2]], [[0, 2, 1], []], [[1, 0], [], [2, 0, 1]], [[0, 1, 2], [0, 1, 2]], [[0]], [[0], [1, 0]],
+              [[2, 0, 3, 1], [0, 1, 2], [1, 0, 3, 2]], [[2, 0, 1], [1, 2, 3, 0], [2, 1, 0]], [[0, 1, 2, 3], [1, 0], [3, 2, 1, 0], [0, 1]]]
     parts = 16
     specs = [{"name": f"bases-{i}", "kind": "bases", "bases": bases[i::parts], "rand": max(0, nrand // parts + (i < nrand % parts))} for i in range(parts)]
     specs.append({"name": "nonpin", "kind": "nonpin", "count": 2 if tier == "quick" else 3})
@@ -235,6 +238,8 @@ def run(ctx, spec):
         chk_basis(ctx, basis)
     for _ in range(spec["rand"]):
         basis = [rng.sample(range(k), k) for k in (rng.choice([2, 3, 3, 4]) for _ in range(rng.randint(2, 3)))]
+        if rng.random() < 0.5:  # lengths deliberately not grouped
+            basis = [rng.sample(range(4), 4), rng.sample(range(3), 3), rng.sample(range(4), 4)]
         chk_basis(ctx, basis)
     ctx.sample({"bases": spec["bases"][:2], "word_length_bound": LW["v"]})
     ctx.note(f"every M-word of length <= {LW['v']} against each basis; db/scratch/union equivalence by product search")
